@@ -334,6 +334,13 @@ def uniq(vals):
 
 def wrap(kind, inner: List[TS], thorough, aux=None):
     """Apply a type constructor to inner types, composing the value sets."""
+    ts = _wrap(kind, inner, thorough)
+    if kind not in ("Optional", "Union") and any(x.canon is None for x in inner):
+        ts.canon = None  # no normalised default can be built from a member type without one
+    return ts
+
+
+def _wrap(kind, inner: List[TS], thorough):
     t = inner[0]
     d = max(x.depth for x in inner) + 1
     core = t.core
